@@ -3516,11 +3516,9 @@ impl Server {
             }).unwrap_or(false);
             
             if should_remove {
-                // Check if connection has active subscriptions before cleaning up
-                if self.pubsub.is_subscribed(id) {
-                    // Skip cleanup for connections with active subscriptions
-                    continue;
-                }
+                // A closing connection is removed whether or not it still has subscriptions: the
+                // subscriptions of a client that disconnected are dropped below, otherwise they
+                // would live forever and keep counting as receivers of every PUBLISH
                 to_remove.push(id);
             }
         }
